@@ -9,6 +9,8 @@ From CG Require Import Model.Check.
 From CG Require Import Model.Dfa.
 From CG Require Import Spec.Choice.
 From CGgen Require Import Consts.
+From CG Require Import Spec.Mistakes.
+From CG Require Import Spec.Warnings.
 (* add new Require lines above this line *)
 Require Import ExtrOcamlBasic ExtrOcamlString.
 Extraction Language OCaml.
@@ -23,5 +25,10 @@ Separate Extraction
   Dfa.mkall
   Dfa.trans_states
   Choice.spec
+  Mistakes.present
+  Mistakes.specs_have_command_plain
+  Warnings.unused_plain
+  Warnings.unused_for_shell
+  Warnings.undefined_reported
   (* add new roots above this line *)
   Prelude.pow2.
